@@ -366,3 +366,211 @@ def nobase_mod_rule(chk, prog, rule="NOBASE"):
     if not dom.viol:
         chk.ok(rule, "%s/%s" % (rule, fns[0]), loc_str(f), "on every path of %s that marks the operand base-less, mod_disp is cleared before ModRM/SIB are composed" % fns[0])
     chk.floor("ModRM/SIB composition sites after the no-base rewriting", dom.nsites, 2)
+
+
+# ---------------------------------------------------------------------------------------------------------------------
+# RADIX: numbers are converted in the radix the scanner decided (10 or 16), never by strtoul's own prefix detection
+# ---------------------------------------------------------------------------------------------------------------------
+
+def radix_rule(chk, prog, rule="RADIX"):
+    """nasm reads `010` as ten; strtoul(s, 0, 0) reads it as eight.  The base argument of every strtoul/strtol in the library is a
+    constant 10 or 16, or a variable that only ever receives those (directly, or through a pointer handed to a helper)."""
+    from .core import kids, strip, walk, expr_str, loc_str, ConstEval, callee_name, call_args, ref_name
+    ce = ConstEval(prog)
+    lib = prog.lib_functions()
+    n = 0
+
+    def stores_through_param(gname, idx, depth=0):
+        """constants a function stores through its idx-th (pointer) parameter; None if something else is stored"""
+        g = lib.get(gname)
+        if g is None or depth > 3:
+            return None
+        ps = prog.params(g)
+        if idx >= len(ps):
+            return None
+        pn = ps[idx]["name"]
+        vals = set()
+        for m in walk(prog.body(g)):
+            if m.get("kind") in ("BinaryOperator", "CompoundAssignOperator") and m.get("opcode", "").endswith("=") and \
+                    m.get("opcode") not in ("==", "!=", "<=", ">="):
+                l = strip(kids(m)[0])
+                if l.get("kind") == "UnaryOperator" and l.get("opcode") == "*" and ref_name(strip(kids(l)[0], casts=True)) == pn:
+                    v = ce.try_eval(kids(m)[1]) if m.get("opcode") == "=" else None
+                    if v is None:
+                        return None
+                    vals.add(v)
+            if m.get("kind") == "CallExpr" and callee_name(m) in lib:
+                for j, a in enumerate(call_args(m)):
+                    if ref_name(strip(a, casts=True)) == pn:
+                        sub = stores_through_param(callee_name(m), j, depth + 1)
+                        if sub is None:
+                            return None
+                        vals |= sub
+        return vals
+
+    def must_store(gname, idx):
+        """does the function store a constant through its idx-th parameter in a top-level statement that no return precedes"""
+        g = lib.get(gname)
+        if g is None:
+            return False
+        ps = prog.params(g)
+        if idx >= len(ps):
+            return False
+        pn = ps[idx]["name"]
+        for st in kids(prog.body(g)):
+            st0 = strip(st)
+            if st0.get("kind") == "BinaryOperator" and st0.get("opcode") == "=":
+                l = strip(kids(st0)[0])
+                if l.get("kind") == "UnaryOperator" and l.get("opcode") == "*" and ref_name(strip(kids(l)[0], casts=True)) == pn and \
+                        ce.try_eval(kids(st0)[1]) is not None:
+                    return True
+            if any(x.get("kind") in ("ReturnStmt", "GotoStmt") for x in walk(st)):
+                return False
+        return False
+
+    def _var_values(f, nm, use):
+        """values the local `nm` may hold at the call `use`: definitions are ordered by the top-level statement of the body they sit
+        in; everything before the last definition that certainly executes (an initialiser, a top-level assignment, a top-level call
+        of a helper that always stores through &nm) is dead"""
+        tops = kids(prog.body(f))
+        defs = []       # (top index, values or None, certain?)
+        use_idx = None
+        for ti, st in enumerate(tops):
+            for m in walk(st):
+                if m is use:
+                    use_idx = ti
+                top_level = strip(st) is m or (st.get("kind") == "DeclStmt" and m in kids(st)) or \
+                    (st.get("kind") == "DeclStmt" and any(kids(d) and strip(kids(d)[-1], casts=True) is m for d in kids(st)))
+                if m.get("kind") == "VarDecl" and m.get("name") == nm and kids(m):
+                    iv = ce.try_eval(kids(m)[-1])
+                    defs.append((ti, None if iv is None else {iv}, True))
+                elif m.get("kind") in ("BinaryOperator", "CompoundAssignOperator") and m.get("opcode", "").endswith("=") and \
+                        m.get("opcode") not in ("==", "!=", "<=", ">=") and strip(kids(m)[0]).get("kind") == "DeclRefExpr" and \
+                        ref_name(strip(kids(m)[0])) == nm:
+                    iv = ce.try_eval(kids(m)[1]) if m.get("opcode") == "=" else None
+                    defs.append((ti, None if iv is None else {iv}, top_level and m.get("opcode") == "="))
+                elif m.get("kind") == "CallExpr" and callee_name(m) in lib:
+                    for j, x in enumerate(call_args(m)):
+                        x0 = strip(x, casts=True)
+                        if x0.get("kind") == "UnaryOperator" and x0.get("opcode") == "&" and ref_name(strip(kids(x0)[0])) == nm:
+                            defs.append((ti, stores_through_param(callee_name(m), j), top_level and must_store(callee_name(m), j)))
+        if use_idx is None or not defs:
+            return None
+        certain = [ti for ti, _, must in defs if must and ti < use_idx]
+        start = max(certain) if certain else -1
+        vals = set()
+        for ti, vs, _ in defs:
+            if ti < start:
+                continue
+            if vs is None:
+                return None
+            vals |= vs
+        return vals or None
+
+    for fn, f in sorted(lib.items()):
+        for c in walk(prog.body(f)):
+            if c.get("kind") != "CallExpr" or callee_name(c) not in ("strtoul", "strtol", "strtoull", "strtoll"):
+                continue
+            a = call_args(c)
+            if len(a) < 3:
+                continue
+            n += 1
+            key = "%s/%s@%s" % (rule, fn, loc_str(c))
+            want = "%s() converts in the radix the scanner decided (10 or 16)" % callee_name(c)
+            def arg_values(e):
+                e = strip(e, casts=True)
+                v = ce.try_eval(e)
+                if v is not None:
+                    return {v}
+                if e.get("kind") == "ConditionalOperator":
+                    x, y = arg_values(kids(e)[1]), arg_values(kids(e)[2])
+                    return None if (x is None or y is None) else x | y
+                nm = ref_name(e) if e.get("kind") == "DeclRefExpr" else None
+                return _var_values(f, nm, c) if nm else None
+            vals = arg_values(a[2])
+            if vals is None:
+                chk.broken(rule, key, loc_str(c), want, "cannot resolve the values of the base argument %s" % expr_str(a[2]))
+                continue
+            chk.require(vals <= {10, 16}, rule, key, loc_str(c), want, "base argument %s may be %s" % (expr_str(a[2]), sorted(vals)))
+    chk.floor("number conversions", n, 2)
+    return n
+
+
+# ---------------------------------------------------------------------------------------------------------------------
+# MEMIDX: code that locates "the memory operand" by computing an index can reach every position a memory operand may take
+# ---------------------------------------------------------------------------------------------------------------------
+
+def mem_index_rule(chk, prog, rule="MEMIDX"):
+    """The operand formats (OPD_FORMAT_TABLE) allow a memory operand in several positions - the third for the VEX RVM forms.
+    Where the library indexes the operand array with a local whose value is *computed from constants* (a conditional
+    expression, not the position the tokenizer recorded, not a loop over all operands, not a parameter) and tests that operand
+    for being a memory operand, the computed values must include every position in which the formats allow one."""
+    from .core import kids, strip, walk, expr_str, loc_str, ConstEval, ref_name
+    from . import tables as T
+    mpos = set()
+    for e in T.opd_format_table(prog):
+        for i, ch in enumerate(e["str"]):
+            if ch == "m":
+                mpos.add(i)
+    ce = ConstEval(prog)
+    n = 0
+
+    def values(e):
+        """finite value set of an index expression built from constants and conditional expressions; None = not of that shape"""
+        e = strip(e, casts=True)
+        v = ce.try_eval(e)
+        if v is not None:
+            return {v}
+        if e.get("kind") == "ConditionalOperator":
+            a, b = values(kids(e)[1]), values(kids(e)[2])
+            if a is None or b is None:
+                return None
+            return a | b
+        return None
+
+    for fn, f in sorted(prog.lib_functions().items()):
+        locs = {}
+        assigned = {}
+        for m in walk(prog.body(f)):
+            if m.get("kind") == "VarDecl" and kids(m) and "int" in (m.get("type") or {}).get("qualType", ""):
+                locs[m["name"]] = (m, kids(m)[-1])
+            if m.get("kind") in ("BinaryOperator", "CompoundAssignOperator") and m.get("opcode", "").endswith("=") and \
+                    m.get("opcode") not in ("==", "!=", "<=", ">=") and strip(kids(m)[0]).get("kind") == "DeclRefExpr":
+                assigned.setdefault(ref_name(strip(kids(m)[0])), []).append(kids(m)[1] if m.get("opcode") == "=" else None)
+            if m.get("kind") == "UnaryOperator" and m.get("opcode") in ("++", "--", "&"):
+                nm = ref_name(strip(kids(m)[0], casts=True))
+                if nm:
+                    assigned.setdefault(nm, []).append(None)
+        used = {}
+        for m in walk(prog.body(f)):
+            if m.get("kind") == "BinaryOperator" and m.get("opcode") in ("==", "!="):
+                for a, b in (kids(m), kids(m)[::-1]):
+                    a0 = strip(a, casts=True)
+                    if a0.get("kind") == "MemberExpr" and a0.get("name") == "type" and ce.try_eval(strip(b, casts=True)) == ord("m"):
+                        base = strip(kids(a0)[0], casts=True)
+                        if base.get("kind") == "ArraySubscriptExpr":
+                            idx = strip(kids(base)[1], casts=True)
+                            arr = strip(kids(base)[0], casts=True)
+                            if arr.get("kind") == "MemberExpr" and arr.get("name") == "opd" and idx.get("kind") == "DeclRefExpr":
+                                used.setdefault(ref_name(idx), m)
+        for nm, site in sorted(used.items()):
+            if nm not in locs:
+                continue                       # a parameter: decided at the callers, which pass constants per encoding class
+            decl, init = locs[nm]
+            n += 1
+            key = "%s/%s/%s" % (rule, fn, nm)
+            exprs = [init] + assigned.get(nm, [])
+            if any(x is None for x in exprs):
+                chk.ok(rule, key, loc_str(decl), "%s is stepped through the operands (not a computed position)" % nm)
+                continue
+            sets = [values(x) for x in exprs]
+            if any(s_ is None for s_ in sets):
+                chk.ok(rule, key, loc_str(decl), "%s comes from the record / a call (%s), not from a choice among constants" % (nm, expr_str(init)[:60]))
+                continue
+            vs = set().union(*sets)
+            chk.require(mpos <= vs, rule, key, loc_str(decl),
+                        "an operand position computed from constants and then tested for a memory operand covers every position the operand "
+                        "formats allow a memory operand in (%s)" % sorted(mpos),
+                        "%s can only be %s (%s)" % (nm, sorted(vs), expr_str(init)[:80]))
+    chk.analysed["memory_operand_position_locals"] = n
+    return n
